@@ -259,3 +259,7 @@ pub fn read_page(page_pool: &PagePool, fd: &File, pn: u64) -> std::io::Result<Fa
     fd.read_exact_at(&mut page[..], pn * PAGE_SIZE as u64)?;
     Ok(page)
 }
+
+#[cfg(kani)]
+#[path = "/verif/units/kani/io_mod.rs"]
+mod verif_kani;
